@@ -22,6 +22,7 @@ from catalog.ctx import FreshCtx
 teneva = boot.boot()
 
 NAME = 'history_sim'
+PROCESS_HISTORY = True      # the kernel compares warm-process digests with fresh-interpreter digests (oracle process-history-dependence)
 LEVEL = {'C10': 'exploration'}
 RULE = {'C10': 'scenario = 1..4 client scripts of catalogue calls (int seeds and generator objects, optional dictionaries omitted or supplied, '
                'repeated calls) plus a scheduler seed; evaluations = library calls executed (isolated references + interleaved history); a case is '
@@ -41,7 +42,7 @@ EXPECTED_PROBES = {'C10': ['context_switch_inside_call', 'draw_yield_points', 'c
                            'repeated_calls']}
 BUDGET = {'C10': {'quick': {'n': 5000, 'max_s': 150, 'chunk': 20}, 'thorough': {'n': 100000, 'max_s': 3000, 'chunk': 25}}}
 NAMES = sorted(api.ENTRIES)
-SEEDED = [nm for nm in NAMES if nm in ('rand', 'rand_norm', 'rand_stab', 'core_qr_rand', 'sample', 'sample_square', 'sample_lhs', 'sample_rand',
+SEEDED = [nm for nm in NAMES if nm in ('anova_from_file', 'rand', 'rand_norm', 'rand_stab', 'core_qr_rand', 'sample', 'sample_square', 'sample_lhs', 'sample_rand',
                                        'sample_rand_poi', 'sample_tt', 'sample_func', 'anova', 'ANOVA', 'cross_act')]
 DEFAULT_DICT = ['cross', 'als', 'als_func', 'cache_to_data']
 SOLVERS = ['cross', 'als', 'als_func', 'cross_act']
@@ -103,6 +104,8 @@ def default_dicts():
     out = []
     for nm in NAMES:
         fn = getattr(teneva, nm, None)
+        if fn is None:
+            continue
         for dflt in list(getattr(fn, '__defaults__', None) or ()) + list((getattr(fn, '__kwdefaults__', None) or {}).values()):
             if isinstance(dflt, dict):
                 out.append((nm, dflt))
@@ -179,6 +182,15 @@ def modify_args(call):
     return n
 
 
+def repeat_ok(call, spec):
+    """A second call with the very same objects must give the same result unless the first one legitimately changed them."""
+    if spec.get('seed_mode') != 'int' or call.passthrough:
+        return False
+    if any(isinstance(m, int) for m in call.mutable) or 'cache' in call.kwargs:
+        return False
+    return spec['entry'] not in ('getter', 'show')
+
+
 def run_call(call):
     try:
         return call.run(), None
@@ -209,6 +221,8 @@ class Client:
         self.in_call = False
         self.results = []          # (spec index, digest)
         self.results2 = {}         # spec index -> digest of the call repeated after the caller modified its arguments
+        self.results_rep = {}      # spec index -> digest of the call repeated with the very same objects
+        self.check_failures = []
         self.error = None
         self.kept = []
 
@@ -264,8 +278,25 @@ class Sched:
                 cl.in_call = False
                 dg = result_digest(call, ctx, res, exc)
                 cl.results.append((k, dg))
+                if call.check is not None and exc is None:
+                    bad = call.check(res)
+                    if bad:
+                        cl.check_failures.append((k, bad))
                 if not call.passthrough:
                     cl.kept.append(res)
+                if spec.get('repeat') and repeat_ok(call, spec):
+                    # the very same argument objects again (stateful callbacks put back to their initial state); the first result is scribbled on
+                    self.point(cl, 'exit')
+                    scribble(res)
+                    if call.reset is not None:
+                        call.reset()
+                    self.stats['fault.same_objects_called_again'] = self.stats.get('fault.same_objects_called_again', 0) + 1
+                    self.point(cl, 'enter')
+                    cl.in_call = True
+                    res_r, exc_r = run_call(call)
+                    cl.in_call = False
+                    cl.results_rep[k] = result_digest(call, ctx, res_r, exc_r)
+                    cl.kept.append(res_r)
                 if spec.get('remodify') and not call.mutable and not call.passthrough and spec['entry'] not in REMOD_EXCLUDED:
                     # the caller rewrites its own argument objects in place and calls again with the very same objects
                     self.point(cl, 'exit')
@@ -357,6 +388,9 @@ def gen_spec(rng, force=None):
     if rng.random() < 0.2 and entry not in REMOD_EXCLUDED:
         sp['remodify'] = True
         sp['seed_mode'] = 'int'
+    elif rng.random() < 0.2:
+        sp['repeat'] = True
+        sp['seed_mode'] = 'int'
     return sp
 
 
@@ -389,7 +423,27 @@ def viol(oracle, detail):
     return {'property': 'C10', 'oracle': oracle, 'detail': detail}
 
 
+def execute_process_history(sc):
+    """Replay of a process-history violation: run the prefix scenarios, then the target, in this process and compare the
+    target's digest with the one a fresh interpreter gives."""
+    from sim import kernel
+    import engines.history_sim as me
+    prop, tier, seed = sc['property'], sc['tier'], sc['seed']
+    for i in sc['prefix']:
+        execute(kernel.make_scenario(me, prop, tier, seed, i))
+    warm = execute(kernel.make_scenario(me, prop, tier, seed, sc['target']))
+    fresh = kernel.fresh_digest(prop, tier, seed, sc['target'])
+    V = []
+    if fresh != warm['digest']:
+        V.append(viol('process-history-dependence', 'scenario %d gives digest %s when it is the first thing a fresh interpreter does, but %s after the %d scenarios %s '
+                      'were executed in the same process' % (sc['target'], fresh, warm['digest'], len(sc['prefix']), sc['prefix'][:12])))
+    return {'violations': V + warm['violations'], 'runs': len(sc['prefix']) + 1, 'stats': {}, 'digest': dig(fresh, warm['digest']), 'nontrivial': 1,
+            'sim_time': 0.0, 'sample': {'prefix': len(sc['prefix']), 'target': sc['target']}, 'interleavings': []}
+
+
 def execute(sc):
+    if sc.get('mode') == 'process-history':
+        return execute_process_history(sc)
     sc = copy.deepcopy(sc)
     stats = {}
     V = []
@@ -450,9 +504,16 @@ def execute(sc):
             if cl.error:
                 V.append(viol('liveness', 'client %d: %s' % (cl.id, cl.error)))
                 continue
+            for k, bad in cl.check_failures:
+                V.append(viol('twin', 'client %d call %d: %s' % (cl.id, k, bad)))
+                break
             for k, dg in cl.results:
                 spec = cl.script[k]
                 ref = refs[cjson(spec)]
+                if k in cl.results_rep and cl.results_rep[k] != dg:
+                    V.append(viol('repeatability', 'client %d call %d: %s (argseed %d) called twice with the very same argument objects (callbacks reset) '
+                                  'returned two different results' % (cl.id, k, spec['entry'], spec['argseed'])))
+                    break
                 if k in cl.results2 and ref[3] is not None and cl.results2[k] != ref[3]:
                     V.append(viol('history-dependence', 'client %d call %d: %s (argseed %d) called again with the same argument objects after the caller changed '
                                   'their contents returned another result than a first call with those contents' % (cl.id, k, spec['entry'], spec['argseed'])))
@@ -472,7 +533,7 @@ def execute(sc):
         SCHED[0] = None
     sample = {'n': sc['n'], 'clients': [[(x['entry'], x['seed_mode']) for x in scr] for scr in sc['clients']],
               'yield_points': s.steps, 'switches_inside_calls': s.switch_inside, 'perturbations': s.perturbed}
-    h = [[r for r in c.results] + sorted(c.results2.items()) for c in s.clients]
+    h = [[r for r in c.results] + sorted(c.results2.items()) + sorted(c.results_rep.items()) for c in s.clients]
     return {'violations': V, 'runs': runs, 'stats': stats, 'digest': dig(h, sched_dig, [v['oracle'] for v in V]),
             'nontrivial': nontrivial, 'sim_time': CLOCK.advanced, 'sample': sample, 'interleavings': [sched_dig]}
 
@@ -480,6 +541,16 @@ def execute(sc):
 def shrink(sc, v):
     def cp():
         return copy.deepcopy(sc)
+    if sc.get('mode') == 'process-history':
+        pre = sc['prefix']
+        n = len(pre)
+        if n > 1:
+            for a, b in ((0, n // 2), (n // 2, n)):
+                s = cp(); s['prefix'] = pre[:a] + pre[b:]; yield s
+        if n <= 8:
+            for i in range(n):
+                s = cp(); s['prefix'] = pre[:i] + pre[i + 1:]; yield s
+        return
     for ci in range(len(sc['clients']) - 1, -1, -1):
         if len(sc['clients']) > 1:
             s = cp(); del s['clients'][ci]; yield s
@@ -497,6 +568,8 @@ def shrink(sc, v):
         for k, spec in enumerate(script):
             if spec.get('remodify'):
                 s = cp(); s['clients'][ci][k]['remodify'] = False; yield s
+            if spec.get('repeat'):
+                s = cp(); s['clients'][ci][k]['repeat'] = False; yield s
             if spec.get('seed_mode') != 'int':
                 s = cp(); s['clients'][ci][k]['seed_mode'] = 'int'; yield s
     if len(sc['n']) > 2:
